@@ -1,5 +1,7 @@
 import IrefVerif.Lemmas.Order
 import IrefVerif.Lemmas.PctBytes
+import IrefVerif.Lemmas.IriBytes
+import IrefVerif.Props.Valid
 
 /-!
 # C08 — `Eq`, `Ord` and `Hash` agree with each other
@@ -9,12 +11,18 @@ octets (`Model/Cmp.lean`).  Proved: the order is total, antisymmetric and transi
 `equal` outcome is exactly equality, and the hash trace is a function of the decoded octets, so
 equal values hash identically.  Owned values forward to borrowed ones (the same model function);
 a URI/IRI hashes as the same text seen as a reference by definition of `fullHash`.
-The derived struct impls (`…Parts`) are lexicographic combinations of these; their agreement
-with the real crate, and the `Borrow`-based lookups, are checked by the `cmp`/`views` streams.
+Struct level: for every pair of valid references (either family, octet level) the model of `cmp`
+is `keyC (key a) (key b)` for a *lawful* total order `keyC` on normal-form keys
+(`Lex.LawfulCmp`: `equal` ⇔ identical keys, antisymmetric, transitive), the model of `hash` is
+`keyH (key a)`, and `==` is `key a = key b` (C07).  Hence: total order, `equal` ⇔ `==`, equal
+values hash identically; and a URI/IRI compares, orders and hashes exactly like the same text
+seen as a reference (`full_as_ref`), which is what the `Borrow` impls need.
+Agreement of the model with the real crate, and the `Borrow`-based lookups in real collections,
+are checked by the `cmp`/`views` streams.
 -/
 
 namespace IrefVerif.Props.C08
-open IrefVerif IrefVerif.Spec IrefVerif.Model.Cmp IrefVerif.Lemmas
+open IrefVerif IrefVerif.Spec IrefVerif.Model.Cmp IrefVerif.Lemmas IrefVerif.Lex
 
 /-- `equal` outcome of the ordering ⇔ equality -/
 theorem cmp_eq_iff_eq (a b : Text) (ha : wellEscaped a = true) (hb : wellEscaped b = true) :
@@ -56,6 +64,85 @@ theorem full_hash_eq_ref_hash (w : Text) : fullHash w = refHash w := rfl
 /-- literal types (`Scheme`, `Port`): the byte order is total with `equal` ⇔ identical -/
 theorem bytes_cmp_eq_iff (a b : Text) : bytesCmp a b = .eq ↔ a = b := bytesCmp_eq_iff a b
 
+/-! ## whole references and full URIs/IRIs -/
+
+/-- the order on keys is a total order -/
+theorem key_order_lawful : LawfulCmp keyC := lawful_keyC
+
+/-- **`cmp` on references is that order on their keys; it never panics** -/
+theorem ref_cmp (G : Grammar) (ok : Grammar.Ok G) (oka : Grammar.OkAuth G) (we : Grammar.OkWE G)
+    (a b : Text) (ha : RE.Matches G.reference a) (hb : RE.Matches G.reference b) :
+    refCmp a b = some (keyC (key a) (key b)) := refCmp_eq_key G ok oka we a b ha hb
+
+/-- **`equal` outcome of the ordering ⇔ `==`** -/
+theorem ref_cmp_eq_iff_eq (G : Grammar) (ok : Grammar.Ok G) (oka : Grammar.OkAuth G) (we : Grammar.OkWE G)
+    (a b : Text) (ha : RE.Matches G.reference a) (hb : RE.Matches G.reference b) :
+    refCmp a b = some .eq ↔ refEq a b = some true := by
+  rw [ref_cmp G ok oka we a b ha hb, refEq_eq_key G ok oka we a b ha hb]
+  simp [lawful_keyC.eq_iff]
+
+/-- antisymmetry -/
+theorem ref_cmp_swap (G : Grammar) (ok : Grammar.Ok G) (oka : Grammar.OkAuth G) (we : Grammar.OkWE G)
+    (a b : Text) (ha : RE.Matches G.reference a) (hb : RE.Matches G.reference b) :
+    refCmp b a = (refCmp a b).map Ordering.swap := by
+  rw [ref_cmp G ok oka we a b ha hb, ref_cmp G ok oka we b a hb ha, lawful_keyC.swap]
+  rfl
+
+/-- transitivity -/
+theorem ref_cmp_trans (G : Grammar) (ok : Grammar.Ok G) (oka : Grammar.OkAuth G) (we : Grammar.OkWE G)
+    (a b c : Text) (ha : RE.Matches G.reference a) (hb : RE.Matches G.reference b)
+    (hc : RE.Matches G.reference c) (h1 : refCmp a b = some .lt) (h2 : refCmp b c = some .lt) :
+    refCmp a c = some .lt := by
+  rw [ref_cmp G ok oka we a b ha hb] at h1
+  rw [ref_cmp G ok oka we b c hb hc] at h2
+  rw [ref_cmp G ok oka we a c ha hc]
+  injection h1 with h1; injection h2 with h2
+  rw [lawful_keyC.lt_trans _ _ _ h1 h2]
+
+/-- **equal values hash identically** -/
+theorem ref_eq_hash (G : Grammar) (ok : Grammar.Ok G) (oka : Grammar.OkAuth G) (we : Grammar.OkWE G)
+    (a b : Text) (ha : RE.Matches G.reference a) (hb : RE.Matches G.reference b)
+    (h : refEq a b = some true) : refHash a = refHash b := by
+  rw [refEq_eq_key G ok oka we a b ha hb] at h
+  have e : key a = key b := by simpa using h
+  rw [refHash_eq_key G ok oka we a ha, refHash_eq_key G ok oka we b hb, e]
+
+/-- hashing never panics -/
+theorem ref_hash_total (G : Grammar) (ok : Grammar.Ok G) (oka : Grammar.OkAuth G) (we : Grammar.OkWE G)
+    (a : Text) (ha : RE.Matches G.reference a) : (refHash a).isSome := by
+  rw [refHash_eq_key G ok oka we a ha]; rfl
+
+/-- **a URI/IRI compares, orders and hashes exactly like the same text seen as a reference** -/
+theorem full_as_ref (G : Grammar) (ok : Grammar.Ok G) (a b : Text)
+    (ha : RE.Matches G.full a) (hb : RE.Matches G.full b) :
+    fullEq a b = refEq a b ∧ fullCmp a b = refCmp a b ∧ fullHash a = refHash a := by
+  unfold fullEq fullCmp refEq refCmp
+  rw [fullParts_eq_refParts a (fdc_of_full G ok a ha), fullParts_eq_refParts b (fdc_of_full G ok b hb)]
+  exact ⟨rfl, rfl, rfl⟩
+
+/-- end to end, for the values the constructors accept (URI family; octets) -/
+theorem uriRef_ord_hash (a b : Text) (ha8 : ∀ c ∈ a, c < 256) (hb8 : ∀ c ∈ b, c < 256)
+    (ha : accepts .uriRef a = true) (hb : accepts .uriRef b = true) :
+    refCmp a b = some (keyC (key a) (key b)) ∧ refHash a = some (keyH (key a)) ∧
+    (refCmp a b = some .eq ↔ refEq a b = some true) :=
+  have va := Valid.uriRef_octets a ha8 ha
+  have vb := Valid.uriRef_octets b hb8 hb
+  ⟨ref_cmp uriG uriG_ok uriG_okAuth uriG_okWE a b va vb,
+   refHash_eq_key uriG uriG_ok uriG_okAuth uriG_okWE a va,
+   ref_cmp_eq_iff_eq uriG uriG_ok uriG_okAuth uriG_okWE a b va vb⟩
+
+/-- … IRI family: octets whose UTF-8 decoding is a word of RFC 3987 -/
+theorem iriRef_ord_hash (a b : Text) (ha8 : ∀ c ∈ a, c < 256) (hb8 : ∀ c ∈ b, c < 256)
+    (ha : accepts .iriRef a = true) (hb : accepts .iriRef b = true) :
+    refCmp a b = some (keyC (key a) (key b)) ∧ refHash a = some (keyH (key a)) ∧
+    (refCmp a b = some .eq ↔ refEq a b = some true) :=
+  have va := Valid.iriRef_octets a ha8 ha
+  have vb := Valid.iriRef_octets b hb8 hb
+  ⟨ref_cmp iriGB iriGB_ok iriGB_okAuth iriGB_okWE a b va vb,
+   refHash_eq_key iriGB iriGB_ok iriGB_okAuth iriGB_okWE a va,
+   ref_cmp_eq_iff_eq iriGB iriGB_ok iriGB_okAuth iriGB_okWE a b va vb⟩
+
+example : refCmp [0x61, 0x2F, 0x62] [0x61, 0x2F, 0x25, 0x36, 0x32] = some .eq := by decide
 example : pctEq [0x25, 0x34, 0x31] [0x41] = some true := by decide
 example : pctCmp [0x25, 0x46, 0x46] [0x25, 0x46, 0x46] = some .eq := by decide
 example : wellEscaped [0x25, 0x46, 0x46] = true := by decide
